@@ -18,6 +18,7 @@ var propTable = map[string]propDesc{
 			"R30: getChunkSize computes the documented v16 chunk size on every region of (mode, cardinality, document count)",
 			"R31: readLocation fills every field of the reused Location; reused result slots are cleared before they are handed out",
 			"R28: the chunked int coders reused from term to term are Reset after each term is written",
+			"R32b: a 1-hit dictionary entry is made outside writePostings only by re-encoding a decoded 1-hit entry or after a frequency was found equal to 1 on every way there",
 			"R29: every component encoded per location (field, position, start, end, array-position count) is computed from that very location",
 			"R29b: the frequency and has-locations flag encoded with a posting are computed inside the loop over the postings",
 			"R36: the norm word of a freq/norm record is written exactly when the encoded frequency is non-zero, and every reader (read, skip) consumes it exactly when the decoded frequency is non-zero",
@@ -81,6 +82,8 @@ var propTable = map[string]propDesc{
 			"R18: section addresses are wired into the field table on the merge path",
 			"R25: per-segment input tables and per-field compacted tables are indexed in their own index space",
 			"R26: loops over fields and segments are exhaustive",
+			"R26c: a boolean carried round a loop over the segments in focus and read afterwards accumulates over them",
+			"R28c: in the term loop of the merge the nil-ness / length of the previous term never decides that the collected postings are not written out",
 			"R28: per-term accumulators (coders, postings bitmap, last-hit scalars read by the 1-hit decision) are reset after each term",
 			"R29: every component encoded per location is computed from that very location",
 			"R12: the postings list / iterator reused across all terms of a merge is fully reset",
@@ -104,7 +107,8 @@ var propTable = map[string]propDesc{
 	"C08": {
 		Decides: []string{"R11: the scratch list reused by the dictionary iterator cannot keep a stale 1-hit encoding tag",
 			"R11b: Count looks at the bitmap only after the 1-hit tag was found zero (the dictionary iterator reports Count of a reused scratch list)",
-			"R32: the merge writes a term 1-hit only with frequency exactly 1 (a 1-hit entry with norm bits 0 would not be recognised, and its count would be whatever the scratch list held)"},
+			"R32: the merge writes a term 1-hit only with frequency exactly 1 (a 1-hit entry with norm bits 0 would not be recognised, and its count would be whatever the scratch list held)",
+			"R28c: in the merge's term loop the nil-ness / length of the previous term never decides that the collected postings are not written out when the term changes (the empty term is a term of the dictionary)"},
 		NotDecided: []string{"automaton/range filtering (vellum)", "ordering", "Contains/Cardinality values"},
 	},
 	"C09": {
@@ -140,6 +144,7 @@ var propTable = map[string]propDesc{
 		Decides: []string{
 			"R35a: encodeSynonym and decodeSynonym are inverse: id in the high half, document in the low half, split at bit 32, same order of operands and results",
 			"R35b: the synonym iterator hands out a decoded (synonym, document) pair only if there is no exclusion bitmap or the bitmap does not contain that pair's document",
+			"R35b': no method of the iterator assigns its own exclusion bitmap; a document may skip the probe only when it is beyond a field that only ever holds Maximum() of that bitmap",
 			"R35c: synonym fields stay out of the ordinary term dictionaries: an exclusion check for index.SynonymField is registered at initialisation, the list is written nowhere else, the predicate answers true as soon as one check does, and invertedIndexOpaque.process is called only where it answered false",
 			"R12: a reused SynonymsList / SynonymsIterator is fully reset (tabled buffers cleaned)",
 			"R31: the reused result slot of the synonym iterator is cleared as a whole before it is handed out",
@@ -154,6 +159,8 @@ var propTable = map[string]propDesc{
 			"R24: remapped document numbers are tested against the drop sentinel before being encoded",
 			"R25/R26: the per-field compacted tables are indexed in their own space; loops over fields and segments are exhaustive",
 			"R28b: the synonym-id maps (term->id, id->term) of a field are re-created or cleared together",
+			"R28d: a table that outlives a round of the per-field loop and receives ids of a counter that restarts every round is emptied inside that loop (a lazy allocation is not emptying)",
+			"R26c: a boolean that summarises a loop over the segments accumulates (the last segment does not decide for all)",
 			"R35a: the (id, document) code is built and split at bit 32 with the same operand order",
 			"R12: the synonyms list reused across terms is fully reset",
 		},
@@ -167,7 +174,7 @@ var propTable = map[string]propDesc{
 	},
 	"C15": {
 		Decides: []string{
-			"R18: vector section address recorded on the merge path and not recorded when nothing survives",
+			"R18: vector section address recorded on the merge path and not recorded when nothing survives (non-empty id->doc table on every way to the store, or the writer's count moved since the section started and the routines in between write nothing for an empty table)",
 			"R24: vectors of dropped documents are filtered by the sentinel test",
 		},
 		NotDecided: []string{"which vectors are in the rebuilt index (native library)"},
@@ -201,6 +208,7 @@ var propTable = map[string]propDesc{
 		Decides: []string{
 			"R7: no FAISS / section error is dropped; implementations of the section interface agree on propagating their writer's error",
 			"R6: every native index is released on every exit",
+			"R7d: where the error of a vector-engine call on the build / merge path is tested, every way on from the failing side ends in a non-nil error return (no recovery that hides the failure)",
 		},
 		NotDecided: []string{"behaviour of the engine when it fails"},
 	},
